@@ -36,10 +36,12 @@ if HERE not in sys.path:
 from common import run_driver, device_classes  # noqa: E402
 from props.moncommon import Mon, DEVS, WIDTHS, install_timer, tohex  # noqa: E402
 import disgen  # noqa: E402
+import showgen  # noqa: E402
 
 ID = 'C19'
-LEAN_MODULES = ['Py65.Props.C19', 'Py65.Props.C19b', disgen.GENEQ_MODULE, 'Py65.Props.C19g']
-NAMESPACES = ['Py65.Props.C19', 'Py65.Props.C19g', disgen.GENEQ_NAMESPACE]
+LEAN_MODULES = ['Py65.Props.C19', 'Py65.Props.C19b', 'Py65.Props.C19c', disgen.GENEQ_MODULE, showgen.GENEQ_MODULE,
+                'Py65.Props.C19g']
+NAMESPACES = ['Py65.Props.C19', 'Py65.Props.C19g', disgen.GENEQ_NAMESPACE, showgen.GENEQ_NAMESPACE]
 LEVEL = 'proof'
 USES_PROLOGUE = True
 USES_GEN = False
@@ -51,8 +53,16 @@ EXPECTED_THEOREMS = [
     'Py65.Props.C19g.itoa_roundtrip_bin', 'Py65.Props.C19g.itoa_roundtrip_hex', 'Py65.Props.C19g.itoa_roundtrip_dec',
     'Py65.Props.C19g.itoa_other_base', 'Py65.Props.C19g.itoa_flag_bits', 'Py65.Props.C19g.tilde_bin_line',
     'Py65.Props.C19g.disasm_shows_bytes',
-] + disgen.GENEQ_THEOREMS
-pre_build = disgen.pre_build
+    # MPU.__repr__, _output_mpu_status, do_cycles, do_tilde, do_disassemble: hand-model theorems (Props/C19c), the
+    # same for the GENERATED functions (tie by regeneration, harness/py2lean_show.py), and the equalities
+] + disgen.GENEQ_THEOREMS + showgen.HAND_THEOREMS + showgen.G_THEOREMS + showgen.GENEQ_THEOREMS
+
+
+def pre_build(ctx):
+    disgen.pre_build(ctx)
+    showgen.pre_build(ctx)
+
+
 RULE = ('one evaluation = one displayed text checked against the true state; distinct = distinct '
         '(kind of display, device, boundary-class vector of the values shown) tuples; non-trivial = the display '
         'shows at least one non-zero value or a wrap / line break')
@@ -60,12 +70,14 @@ TRUSTED = [
     'itoa / _itoa_fmts (py65/utils/conversions.py) and the instruction text of the disassemble lines: '
     + disgen.TRUSTED_TEXT,
     disgen.MODELLED_TEXT,
-    'hand models Py65.Model.Fmt (MPU.__repr__ of the three devices, status print, cycles, _format_disassembly) '
-    'and Py65.Model.PyStr (%0Nx, %u, %04o, rjust/zfill; itoa = fmtBinL/fmtDecL/toDigits 16 is now PROVED of the '
-    'generated itoa: itoa_eq_*) -- Model.Fmt is tied to the real code by sampled correspondence only (this check), '
-    'text compared byte for byte; Model.Fmt.formatDisassembly is now PROVED equal to the generated '
-    'Monitor._format_disassembly (format_disassembly_eq); MPU.__repr__ / reprformat, do_cycles and the loop of '
-    'do_disassemble are NOT regenerated',
+    'MPU.__repr__ / reprformat (three device classes), Monitor._output_mpu_status, do_cycles, do_tilde, do_disassemble: '
+    + showgen.TRUSTED_TEXT,
+    showgen.MODELLED_TEXT,
+    'hand models Py65.Model.Fmt (MPU.__repr__ of the three devices, status print, cycles, _format_disassembly), '
+    'Py65.Model.Show (do_tilde, the range walk of do_disassemble) and Py65.Model.PyStr (%0Nx, %u, %04o, rjust/zfill) '
+    '-- every one of them is now PROVED equal to the function regenerated from the Python text (itoa_eq_*, '
+    'format_disassembly_eq, repr_eq_*, do_cycles_eq, do_tilde_eq, do_disassemble_eq); Model.Fmt is additionally tied '
+    'to the real code by the sampled correspondence of this check, text compared byte for byte',
     'the independent Python parser of this module (fields located from the header line)',
     "`mem` is proved in C16's mem_exact; here it is checked on the real code by the independent parser only",
     'the instruction text of `disassemble` is the subject of C08/C09; here its byte column, its length and its '
@@ -75,6 +87,10 @@ ASSUMPTIONS = [
     'registers are within the device widths (what `registers` admits and execution preserves, C05/C20)',
     'displayed ranges do not include the getc/putc addresses ($f004/$f001): displaying the input cell reads it',
     'the cycle counter is below 10**4300 (CPython refuses to print larger integers in decimal)',
+    'the GenEq theorems for __repr__ / do_cycles are stated for register attributes and a cycle counter that are not '
+    'negative (the hand model is over the naturals); do_tilde_eq and do_disassemble_eq have no hypothesis; '
+    'disasm_walk_shows_bytes is about a COMPLETED walk inside the address space (disasm_walk_complete: an ordinary '
+    'range of instructions of length 1..L completes within cells + L + 1 units of fuel)',
 ]
 
 FLAGBIT = {'C': 0, 'Z': 1, 'I': 2, 'D': 3, 'B': 4}
@@ -220,6 +236,9 @@ def run_session(rng, dev, budget):
                 P = rng.choice([0x0300, 0x2000, 0x8000, 0xc000])
                 for off in range(0, len(code), 8):
                     M.run('fill $%x %s' % (P + off, ' '.join('$%x' % c for c in code[off:off + 8])), budget)
+                if rng.random() < 0.3:
+                    # the counter is plain machine state: let it also be large (beyond 16 / 32 / 64 bits)
+                    M.m._mpu.processorCycles += rng.choice([0xfff0, 1 << 16, (1 << 32) - 7, 10 ** 12, (1 << 64) + 3])
                 if run('goto $%x' % P) is None:
                     break
                 t = run('cycles')
@@ -359,6 +378,7 @@ def check_disasm(body, dev, M, start, end, table):
     if lines and lines[-1] == '':
         lines.pop()
     cur = start
+    last = start
     wrapped = False
     mitems = []
     lens = {'imp': 1, 'acc': 1, 'imm': 2, 'zpg': 2, 'zpx': 2, 'zpy': 2, 'inx': 2, 'iny': 2, 'rel': 2, 'zpi': 2,
@@ -412,14 +432,27 @@ def check_disasm(body, dev, M, start, end, table):
         cells = ','.join('%d:%d' % ((a + k) & am, subj[((a + k) & am) % phys]) for k in range(want))
         mitems.append(dict(kind='disasm-model', line=l, what=None,
                            model=('fmtdis %s %d %d %s %s' % (dev, a, want, cells, tohex(text)), tohex(l)), key=None, nontrivial=False))
+        last = a
         nxt = a + want
         if nxt > am:
             wrapped = True
             nxt &= am
         cur = nxt
-    # coverage: the listing goes on until it has passed `end`
+    # coverage: the listing goes on until it has passed `end`, and not further
     if not lines:
         return 'nothing disassembled', mitems
+    if start <= end:
+        if last > end:
+            return 'the listing goes on to $%x, beyond the end $%x of the range' % (last, end), mitems
+        if not (wrapped or cur > end):
+            return 'the listing stops at $%x before the end $%x of the range' % (last, end), mitems
+    else:
+        if not wrapped:
+            return 'the listing of the wrapping range $%x:$%x stops at $%x without passing the top of memory' % (start, end, last), mitems
+        if cur <= end:
+            return 'the listing stops at $%x before the end $%x of the range' % (last, end), mitems
+        if end < last < start:
+            return 'the listing goes on to $%x, beyond the end $%x of the range' % (last, end), mitems
     return None, mitems
 
 
